@@ -131,3 +131,76 @@ class SublayoutTwoFunctionaries(PipelineBase):
             r,m=run.check_sat(z3.BoolVal(True))
             if r==z3.sat: rec['sample']={'scenario':mk(m),'expect':'ok' if oc=='ok' else 'err'}
         return rec
+
+class SublayoutAsStrictAsTopLevel(PipelineBase):
+    """the same (defective or sound) layout document is verified twice in one path: as a top-level layout with its signer as
+    the owner, and as the sub-layout of a delegated step.  Whenever the top-level verification rejects it, the delegating
+    verification must fail as well (and the sound control is accepted both ways)."""
+    name='C15.sublayout_as_strict_as_top_level'
+    KINDS=['sound','duplicate_step_names','step_and_inspection_share_a_name','step_rule_fails','threshold_unmet','link_signed_by_unlisted_key','inspection_fails','inspection_rule_fails']
+    def __init__(self,**kw):
+        PipelineBase.__init__(self,**kw)
+        self.bounds={'document':'one layout with 2 steps (+ optionally an inspection), inner functionary G, signed by F0; defect kinds: '+', '.join(self.KINDS),'roles':'(a) top level: caller key F0, links in the root directory; (b) sub-layout of step "d" of an outer layout signed by OWN, links in the dedicated sub-directory',
+                     'hash_map_iteration':'insertion order','free':'one digest byte per inner link'}
+        self.hash_order='fixed'
+        self.witnesses=['both_accept','both_reject']
+    def setup(self,eng,tier):
+        PipelineBase.setup(self,eng,tier)
+        body=self.entry_body
+        def go(run,args):
+            aTop,aSub=args
+            def call(a):
+                try: return ('ret',eng.call_fn(run,body,a))
+                except Panic as p: return ('panic',p.site)
+            r1=call(aTop); run.ghost['events']=[]; r2=call(aSub)
+            return (r1,r2)
+        self.go=go
+    def entry(self,eng): return self.go
+    def inspection_result(self,run,name,a):
+        ld=LinkD(name,{},{},1 if run.ghost.get('insp_fails') else 0)
+        return ok(self.b.metablock(self.b.wrap_link(self.mk_link(run,ld)),[]))
+    def build(self,run,kind):
+        F0,G,OWN,H=0,2,3,1
+        b=self.b
+        names=['i0','i0'] if kind=='duplicate_step_names' else ['i0','i1']
+        steps=[]; files=[]
+        for k,nm in enumerate(names):
+            st=StepD(nm,2 if (kind=='threshold_unmet' and k==1) else 1,[G])
+            if kind=='step_rule_fails' and k==1: st.exp_prod=[b.rule('Disallow','*')]; st.exp_prod_json=[['DISALLOW','*']]
+            steps.append(st)
+            signer=H if (kind=='link_signed_by_unlisted_key' and k==1) else G
+            if not (kind=='duplicate_step_names' and k==1):
+                files.append(FileD(nm,signer,BlockD('link',LinkD(nm,{'m%d'%k:[z3.BitVec('dm_%d'%k,8)]},{'p%d'%k:[z3.BitVec('dp_%d'%k,8)]},return_value=0,command=['c']),[SigD(signer,signer)])))
+        insp=[]
+        if kind in ('step_and_inspection_share_a_name','inspection_fails','inspection_rule_fails'):
+            d=InspD('i1' if kind=='step_and_inspection_share_a_name' else 'q',run=(('false',) if kind=='inspection_fails' else ('true',)))
+            if kind=='inspection_rule_fails': d.exp_prod=[b.rule('Require','missing')]; d.exp_prod_json=[['REQUIRE','missing']]
+            insp=[d]
+        return LayoutD([G,H],steps,insp),files
+    def mk_args(self,run):
+        F0,G,OWN=0,2,3
+        kind=self.KINDS[run.pick(len(self.KINDS),'kind')]
+        inner,files=self.build(run,kind)
+        run.ghost['insp_fails']=(kind=='inspection_fails')
+        # (a) as a top-level layout
+        self.link_dir='linksTop'; aTop=self.install(run,BlockD('layout',inner,[SigD(F0,F0)]),[(F0,F0)],{():files}); dTop=dict(run.ghost['dirs'])
+        # (b) as the sub-layout of a delegated step
+        sub=(('d',F0),)
+        dirs={():[FileD('d',F0,BlockD('layout',inner,[SigD(F0,F0)]))],sub:files}
+        outer=LayoutD([F0],[StepD('d',1,[F0])])
+        self.link_dir='links'; lb=BlockD('layout',outer,[SigD(OWN,OWN)])
+        aSub=self.install(run,lb,[(OWN,OWN)],dirs); run.ghost['dirs'].update(dTop)
+        return (aTop,aSub),{'kind':kind,'lb':lb,'caller':[(OWN,OWN)],'dirs':dirs}
+    def check(self,run,out,g):
+        r1,r2=out[1]; o1=outcome_of(r1); o2=outcome_of(r2); rec=self.new_rec(o1+'|'+o2); rec['obl']=1
+        mk=lambda m: conc_scenario(m,g['lb'],g['caller'],g['dirs'],1700000000)
+        r,m=run.check_sat(z3.BoolVal(True))
+        if 'panic' in (o1,o2):
+            rec['viol']={'kind':'panic','known_key':None,'scenario':mk(m),'predicted':'panic','what':'in_toto_verify panics (%s)'%g['kind']}; return rec
+        if o1!='ok' and o2=='ok':
+            rec['viol']={'kind':'sublayout_checked_less_strictly_than_top_level','known_key':None,'scenario':mk(m),'predicted':'ok','what':'a layout document that is rejected as a top-level layout (%s: %s) satisfies a delegated step as a sub-layout'%(g['kind'],o1)}; return rec
+        if o1=='ok' and o2!='ok':
+            rec['viol']={'kind':'sound_sublayout_rejected','known_key':None,'scenario':mk(m),'predicted':{'not':'ok'},'what':'a layout document that verifies as a top-level layout is rejected as a sub-layout (%s)'%o2}; return rec
+        self.wit(run,rec,'both_accept' if o1=='ok' else 'both_reject')
+        rec['sample']={'scenario':mk(m),'expect':'ok' if o2=='ok' else 'err'}
+        return rec
